@@ -66,6 +66,53 @@ def gen(seed):
         else:
             toks.append("o "+s); apply(eff)
     return ' '.join(toks)
+def genf(seed):
+    r = random.Random(seed)
+    seg = r.choice([0x60,0x80,0xc8,0x100,0x200,0x400,0x1000])
+    toks = ["fhist %x 1"%seg]
+    first=last=0
+    for _ in range(r.randrange(3,30)):
+        x=r.random()
+        if x<0.08: toks.append("z"); continue
+        f = "%x"%r.randrange(0,5) if r.random()<0.35 else "-"
+        y=r.random()
+        if y<0.5:
+            k=r.randrange(1,4); start=last+1 if last else r.choice([1,1,2,5,100])
+            if r.random()<0.1: start+=r.randrange(1,3)
+            toks.append("f %s S %x %s"%(f,k,' '.join(log(start+i,r) for i in range(k))))
+            if f=="-" :
+                if last==0: first=start; last=start+k-1
+                elif start==last+1: last=start+k-1
+            else:
+                # unknown outcome: guess applied half the time to keep the generator's picture moving
+                if r.random()<0.5 and (last==0 or start==last+1):
+                    if last==0: first=start
+                    last=start+k-1
+        elif y<0.72:
+            if last==0: toks.append("f %s D %x %x"%(f,r.randrange(3),r.randrange(8))); continue
+            fi,l=first,last; c=r.randrange(6)
+            if c==0: mn,mx=0,r.randrange(fi,l+1)
+            elif c==1: mn,mx=r.randrange(fi,l+1),l+r.randrange(3)
+            elif c==2: mn,mx=fi,l
+            elif c==3: mn,mx=l,l
+            elif c==4: mn,mx=fi,fi
+            else: mn,mx=r.randrange(fi,l+1),r.randrange(fi,l+2)
+            toks.append("f %s D %x %x"%(f,mn,mx))
+            if not(mn>mx or mx<first or mn>last):
+                if mn<=first:
+                    if mx>=last: first=last=0
+                    else: first=mx+1
+                elif mx>=last: last=mn-1
+        elif y<0.82: toks.append("f - G %x"%r.randrange(max(first,1)-1 if first else 0,last+3))
+        elif y<0.88: toks.append("f %s K 6b %02x"%(f,r.randrange(256)))
+        elif y<0.92: toks.append("f - k 6b")
+        elif y<0.95: toks.append("f - L")
+        else: toks.append("f %s R"%f)
+    return ' '.join(toks)
 if __name__=="__main__":
+    if sys.argv[1]=="f":
+        n=int(sys.argv[2]); s0=int(sys.argv[3]) if len(sys.argv)>3 else 0
+        for i in range(n): print("f%d\t%s"%(i,genf(s0+i)))
+        sys.exit(0)
     n=int(sys.argv[1]); s0=int(sys.argv[2]) if len(sys.argv)>2 else 0
     for i in range(n): print("h%d\t%s"%(i,gen(s0+i)))
